@@ -375,11 +375,11 @@ fn c14_check(ctx: &Ctx) -> i32 {
 
 fn c15_check(ctx: &Ctx) -> i32 {
     let budget = Duration::from_secs(ctx.tier.pick(30, 300));
-    let agg = shard_runs(ctx, "main", ctx.tier.pick(20_000, 1_500_000), budget, Duration::from_secs(30), Arc::new(wb::c15_run));
+    let agg = shard_runs(ctx, "main", ctx.tier.pick(20_000, 1_500_000), budget, Duration::from_secs(30), Arc::new(|run, seed| if run % 5 == 4 { wb::c15_picky(run, seed) } else { wb::c15_run(run, seed) }));
     let rep = Report {
         level: "exploration",
-        rule: "one case = one seeded run: a watch channel with 1-40 increasing updates at random rates (back-to-back, yields, quiescence points); the receiver half is transferred to another endpoint (1 or 2 hops) at a random update index while updates continue, or the sender half is transferred; an extra receiver subscribes at a random index; observation through changed+borrow_and_update, changed+borrow, wait_for or the stream; in 70% of the runs the sender is dropped immediately after the last send. Non-trivial iff a receiver skipped >=1 value (coalescing path) or 2 hops were used. Distinct by hash(seed parameters, interleaving signature).".into(),
-        explanation: "Per receiver: only sent values, never an older value after a newer one; at quiescence of the healthy connection the last observed value equals the last value sent (also the one sent right before the sender dropped) and the observation loop has ended when the sender was dropped.".into(),
+        rule: "one case = one seeded run: a watch channel with 1-40 increasing updates at random rates (back-to-back, yields, quiescence points); the receiver half is transferred to another endpoint (1 or 2 hops) at a random update index while updates continue, or the sender half is transferred; an extra receiver subscribes at a random index; observation through changed+borrow_and_update, changed+borrow, wait_for or the stream; in 70% of the runs the sender is dropped immediately after the last send. Non-trivial iff a receiver skipped >=1 value (coalescing path) or 2 hops were used. Distinct by hash(seed parameters, interleaving signature). Every fifth run uses a value type that the receiving endpoint cannot decode for every fifth value (item error on the receive side): 2-21 updates with quiescence every 1-4 updates, last value decodable, sender kept or dropped.".into(),
+        explanation: "Per receiver: only sent values, never an older value after a newer one; at quiescence of the healthy connection the last observed value equals the last value sent (also the one sent right before the sender dropped) and the observation loop has ended when the sender was dropped. Receive-side item errors are reported through borrow and do not end the channel: the receiver still converges to the latest value, never observes an undecodable one and does not report closure while the sender lives.".into(),
         assumptions: vec!["values are increasing integers, so 'in sending order' is monotonicity".into()],
         exhaustive: false,
         min_nontrivial: ctx.tier.pick(300, 3000),
